@@ -2,6 +2,7 @@
   C05 — time-to-live: no entry is observable at or after insert time + ttl.
 -/
 import MiniMoka.Lemmas.UnsyncLookup
+import MiniMoka.Lemmas.SketchLaws
 import MiniMoka.Lemmas.SyncLookup
 
 namespace MiniMoka
@@ -14,11 +15,11 @@ combined with time_to_idle), for every configuration and history, a key yielded 
 contains_key or iteration at clock reading `now` satisfies `now < t + d`, where `t` is the
 reading of the most recent insert/update of that key — however often it was read and
 wherever the clock steps land (exactly on `t + d` included). -/
-theorem C05_unsync {P : Sketch → Prop} (L : SketchLaws P) (p : Params) (hq : NoQuirks p)
+theorem C05_unsync (p : Params) (hq : NoQuirks p)
     (hsm : SmallSketch p) (h : List Op) :
     oracleC05 .unsync p.ttl (Unsync.trace p h) = true := by
   unfold oracleC05 Unsync.trace
-  refine lookupOracle_of_coupled L hq hsm _ ?_ h {} {} (init_inv L p) (init_coupled p)
+  refine lookupOracle_of_coupled sketchLaws hq hsm _ ?_ h {} {} (init_inv sketchLaws p) (init_coupled p)
   intro g kv hkv
   simp only [allChecks, Bool.and_eq_true] at hkv
   exact hkv.1.2
